@@ -121,11 +121,13 @@ impl Serialize for PrimaryBlock {
     where
         S: Serializer,
     {
-        let num_elems = if !self.crc.has_crc() && !self.has_fragmentation() {
+        // a crc field is only present for crc types with a known representation
+        let crc_bytes = self.crc.bytes();
+        let num_elems = if crc_bytes.is_none() && !self.has_fragmentation() {
             8
-        } else if self.crc.has_crc() && !self.has_fragmentation() {
+        } else if crc_bytes.is_some() && !self.has_fragmentation() {
             9
-        } else if !self.crc.has_crc() && self.has_fragmentation() {
+        } else if crc_bytes.is_none() && self.has_fragmentation() {
             10
         } else {
             11
@@ -145,8 +147,8 @@ impl Serialize for PrimaryBlock {
             seq.serialize_element(&self.total_data_length)?;
         }
 
-        if self.crc.has_crc() {
-            seq.serialize_element(&serde_bytes::Bytes::new(self.crc.bytes().unwrap()))?;
+        if let Some(crc_bytes) = crc_bytes {
+            seq.serialize_element(&serde_bytes::Bytes::new(crc_bytes))?;
         }
 
         seq.end()
